@@ -5,6 +5,7 @@ called on.  Together with `C13.source_add_event_is_model` and `C13.source_dispat
 the chain "event → hooks → buckets → dispatch" on the source.
 -/
 import PamsLemmas.SrcHookReg
+import PamsLemmas.SrcEventSetup
 import Batteries.Tactic.Alias
 
 open Pams Pams.Py Pams.Src
@@ -15,15 +16,24 @@ instance for the times `trigger … trigger + length − 1`; the order mistake s
 trigger time -/
 alias source_shock_hooks := hookreg_src_fshock
 alias source_mistake_and_rule_hooks := hookreg_src_others
+/-- `setup` of the two shocks: the trigger time is the session's start plus the configured `triggerTime`, the
+target the market of the configured name, length / switch as configured or the defaults -/
+alias source_shock_setup := setup_src_shocks
+alias source_setup_refusals := setup_src_refusals
 end Pams.C14
 
 namespace Pams.C15
 /-- the price limit rule registers one before-order hook for every time -/
 alias source_rule_hooks := hookreg_src_others
+/-- `setup` of the rules: the target table holds exactly the named markets, the rate as configured -/
+alias source_rule_setup := setup_src_rules
+alias source_setup_refusals := setup_src_refusals
 end Pams.C15
 
 namespace Pams.C16
 /-- the trading halt rule registers one after-execution hook for every time and one before-step hook per
 target market instance -/
 alias source_rule_hooks := hookreg_src_others
+alias source_rule_setup := setup_src_rules
+alias source_setup_refusals := setup_src_refusals
 end Pams.C16
